@@ -118,6 +118,9 @@ var _ b6.AnyCollection[any, any] = &takeCollection{}
 
 // Return a collection with the first n entries of the given collection.
 func take(_ *api.Context, collection b6.UntypedCollection, n int) (b6.Collection[any, any], error) {
+	if n < 0 {
+		n = 0 // Nothing is taken; Count() must not report a negative length
+	}
 	return b6.Collection[any, any]{AnyCollection: &takeCollection{c: collection, n: n}}, nil
 }
 
@@ -197,6 +200,9 @@ func top(_ *api.Context, collection b6.UntypedCollection, n int) (b6.Collection[
 		if h.Len() > n {
 			heap.Pop(h)
 		}
+	}
+	if h == nil { // The collection was empty
+		return b6.ArrayCollection[interface{}, interface{}]{}.Collection(), err
 	}
 	r := b6.ArrayCollection[interface{}, interface{}]{
 		Keys:   make([]interface{}, h.Len()),
